@@ -33,8 +33,8 @@ theorem C07_methods : Generated.osfsMethods = [
     ("OpenFile", ["false", "true"], ["os.OpenFile"]),
     ("ReadDirNames", ["true"], ["os.Open"]),
     ("Readlink", ["false"], []),
-    ("SetTimesLNano", ["false"], ["syscall.BytePtrFromString", "syscall.NsecToTimespec", "syscall.Syscall6"]),
-    ("SetTimesNano", ["true"], ["syscall.NsecToTimespec", "syscall.UtimesNano"]),
+    ("SetTimesLNano", ["false"], ["syscall.BytePtrFromString", "syscall.Syscall6"]),
+    ("SetTimesNano", ["true"], ["syscall.UtimesNano"]),
     ("Stat", ["true"], ["os.Stat"])] := by decide
 
 /-- a path that leaves the base is refused before anything is looked at -/
